@@ -29,9 +29,12 @@ structure EdCfg where
   vi : Bool
   listCompletion : Bool := false
   withPrinter : Bool := false
-  promptCol : Nat := 2
+  /-- terminal width and the default prompt (for `layout.prompt_size.col`, used by line up/down) -/
+  cols : Nat := 80
+  prompt : Text := ['>', ' ']
   indentSize : Nat := 2
   hasHelper : Bool := false
+  hasCompleter : Bool := false
   /-- `(start, candidates)` for the text before the cursor -/
   completer : Text → Nat → Nat × List Text := fun _ _ => (0, [])
   validator : Text → Verdict := fun _ => .valid false
@@ -73,6 +76,8 @@ structure Ed where
   hint : Option Text
   highlightChar : Bool
   defaultPrompt : Bool
+  /-- `layout.prompt_size.col`: column where the text starts, as of the last refresh -/
+  layoutPromptCol : Nat := 0
   input : Input
   obs : List Obs          -- most recent first
   validatorCalls : List Text  -- most recent first
@@ -186,26 +191,35 @@ def highlightCharStep : EM Bool := fun s =>
     else .ok (false, s)
   else .ok (false, s)
 
+/-- column reached after printing `t` from column 0 on a `cols`-wide terminal
+    (`calculate_position(..).col` for text without line breaks, tabs or escape sequences) -/
+def promptColOf (t : Text) : Nat :=
+  let col := (S.seg t).foldl (fun col g =>
+    let w := U.width g
+    if col + w > cfg.cols then w else col + w) 0
+  if col == cfg.cols then 0 else col
+
 def refreshLine : EM Unit := do
   modify (fun s => { s with hint := computeHint cfg s })
   let _ ← highlightCharStep cfg
-  modify (fun s => { s with defaultPrompt := true })
+  modify (fun s => { s with defaultPrompt := true, layoutPromptCol := promptColOf S U cfg cfg.prompt })
 
 def refreshLineWithMsg : EM Unit := do
   modify (fun s => { s with hint := none })
   let _ ← highlightCharStep cfg
-  modify (fun s => { s with defaultPrompt := true })
+  modify (fun s => { s with defaultPrompt := true, layoutPromptCol := promptColOf S U cfg cfg.prompt })
 
-def refreshPromptAndLine : EM Unit := do
+def refreshPromptAndLine (prompt : Text) : EM Unit := do
   modify (fun s => { s with hint := computeHint cfg s })
   let _ ← highlightCharStep cfg
-  modify (fun s => { s with defaultPrompt := false })
+  modify (fun s => { s with defaultPrompt := false, layoutPromptCol := promptColOf S U cfg prompt })
 
 /-- `move_cursor`: a full refresh (without hint display, `self.hint` untouched) only when a
-    character gets or loses its highlight -/
+    character gets or loses its highlight; otherwise the layout's prompt size is reset to the
+    default prompt's (when the cursor cell changes — approximated as always) -/
 def moveCursor : EM Unit := do
   let _ ← highlightCharStep cfg
-  pure ()
+  modify (fun s => { s with layoutPromptCol := promptColOf S U cfg cfg.prompt })
 
 /-! ### custom bindings -/
 
@@ -253,10 +267,13 @@ def satMulAdd (a : Int) (d : Int) : Int :=
   if r > i16max then i16max else r
 
 /-- `emacs_digit_argument` -/
+def argPrompt (n : Int) : Text := "(arg: ".toList ++ (toString n).toList ++ ") ".toList
+
 def emacsDigitLoop : Nat → EM KeyEvent
   | 0 => exit .fuel
   | fuel + 1 => do
-    refreshPromptAndLine cfg
+    let a ← (fun s => .ok (s.inp.numArgs, s) : EM Int)
+    refreshPromptAndLine S U cfg (argPrompt a)
     let key ← nextKey true
     match key.code with
     | .char d =>
@@ -268,12 +285,12 @@ def emacsDigitLoop : Nat → EM KeyEvent
           { s with inp := { s.inp with numArgs := a' } })
         emacsDigitLoop fuel
       else if d == '-' && (key.mods == 0 || key.mods == Mods.alt) then emacsDigitLoop fuel
-      else do refreshLine cfg; pure key
-    | _ => do refreshLine cfg; pure key
+      else do refreshLine S U cfg; pure key
+    | _ => do refreshLine S U cfg; pure key
 
 def emacsDigitArgument (fuel : Nat) (digit : Char) : EM KeyEvent := do
   modify (fun s => { s with inp := { s.inp with numArgs := if digit == '-' then -1 else digitVal digit } })
-  emacsDigitLoop cfg fuel
+  emacsDigitLoop S U cfg fuel
 
 /-- `num_args` (consumes) -/
 def takeNumArgs : EM Int := fun s =>
@@ -292,7 +309,8 @@ def viNumArgs : EM Nat := do
 def viDigitLoop : Nat → EM KeyEvent
   | 0 => exit .fuel
   | fuel + 1 => do
-    refreshPromptAndLine cfg
+    let a ← (fun s => .ok (s.inp.numArgs, s) : EM Int)
+    refreshPromptAndLine S U cfg (argPrompt a)
     let key ← nextKey false
     match key.code with
     | .char d =>
@@ -302,12 +320,12 @@ def viDigitLoop : Nat → EM KeyEvent
           let a' := if a.natAbs < 1000 then satMulAdd a (digitVal d) else a
           { s with inp := { s.inp with numArgs := a' } })
         viDigitLoop fuel
-      else do refreshLine cfg; pure key
-    | _ => do refreshLine cfg; pure key
+      else do refreshLine S U cfg; pure key
+    | _ => do refreshLine S U cfg; pure key
 
 def viArgDigit (fuel : Nat) (digit : Char) : EM KeyEvent := do
   modify (fun s => { s with inp := { s.inp with numArgs := digitVal digit } })
-  viDigitLoop cfg fuel
+  viDigitLoop S U cfg fuel
 
 /-! ### keymaps -/
 
@@ -383,7 +401,7 @@ def emacs (fuel : Nat) (key0 : KeyEvent) : EM Cmd := do
   let key ←
     match key0.code with
     | .char d =>
-      if key0.mods == Mods.alt && (d == '-' || isDigit d) then emacsDigitArgument cfg fuel d else pure key0
+      if key0.mods == Mods.alt && (d == '-' || isDigit d) then emacsDigitArgument S U cfg fuel d else pure key0
     | _ => pure key0
   let (n, positive) ← emacsNumArgs
   let keys := [key]
@@ -499,7 +517,7 @@ def viCmdMotion (fuel : Nat) (key : KeyEvent) (n0 : Nat) : EM (Option Movement) 
       (match mvt0.code with
        | .char d =>
          if mvt0.mods == 0 && '1' ≤ d && d ≤ '9' then do
-           let k ← viArgDigit cfg fuel d
+           let k ← viArgDigit S U cfg fuel d
            let a ← viNumArgs
            pure (k, min (a * n0) 65535)
          else pure (mvt0, n0)
@@ -549,7 +567,7 @@ def getLastCmd : EM Cmd := fun s => .ok (s.inp.lastCmd, s)
 def viCommand (fuel : Nat) (key0 : KeyEvent) : EM Cmd := do
   let key ←
     match key0.code with
-    | .char d => if key0.mods == 0 && '1' ≤ d && d ≤ '9' then viArgDigit cfg fuel d else pure key0
+    | .char d => if key0.mods == 0 && '1' ≤ d && d ≤ '9' then viArgDigit S U cfg fuel d else pure key0
     | _ => pure key0
   let noNumArgs ← (fun s => .ok (s.inp.numArgs == 0, s) : EM Bool)
   let n ← viNumArgs
@@ -579,12 +597,12 @@ def viCommand (fuel : Nat) (key0 : KeyEvent) : EM Cmd := do
         else if c == 'B' then pure (.move (.backwardWord n .big))
         else if c == 'c' then do
           setInputMode .insert
-          match ← viCmdMotion cfg fuel key n with
+          match ← viCmdMotion S U cfg fuel key n with
           | some mvt => pure (.replace mvt none)
           | none => pure .unknown
         else if c == 'C' then do setInputMode .insert; pure (.replace .endOfLine none)
         else if c == 'd' then do
-          match ← viCmdMotion cfg fuel key n with
+          match ← viCmdMotion S U cfg fuel key n with
           | some mvt => pure (.kill mvt)
           | none => pure .unknown
         else if c == 'D' then pure (.kill .endOfLine)
@@ -621,7 +639,7 @@ def viCommand (fuel : Nat) (key0 : KeyEvent) : EM Cmd := do
         else if c == 'x' then pure (.kill (.forwardChar n))
         else if c == 'X' then pure (.kill (.backwardChar n))
         else if c == 'y' then do
-          match ← viCmdMotion cfg fuel key n with
+          match ← viCmdMotion S U cfg fuel key n with
           | some mvt => pure (.viYankTo mvt)
           | none => pure .unknown
         else if c == 'h' then pure (.move (.backwardChar n))
@@ -629,11 +647,11 @@ def viCommand (fuel : Nat) (key0 : KeyEvent) : EM Cmd := do
         else if c == '+' || c == 'j' then pure (.lineDownOrNextHistory n)
         else if c == '-' || c == 'k' then pure (.lineUpOrPreviousHistory n)
         else if c == '<' then do
-          match ← viCmdMotion cfg fuel key n with
+          match ← viCmdMotion S U cfg fuel key n with
           | some mvt => pure (.dedent mvt)
           | none => pure .unknown
         else if c == '>' then do
-          match ← viCmdMotion cfg fuel key n with
+          match ← viCmdMotion S U cfg fuel key n with
           | some mvt => pure (.indent mvt)
           | none => pure .unknown
         else common cfg fuel keys key n true
@@ -675,7 +693,7 @@ def viInsert (fuel : Nat) (key : KeyEvent) : EM Cmd := do
       else if m == 4 then do
         setInputMode .command
         doneInserting
-        viCommand cfg fuel ⟨.char c, 0⟩
+        viCommand S U cfg fuel ⟨.char c, 0⟩
       else common cfg fuel keys key 1 true
     | .backspace => if m == 0 then pure (.kill (.backwardChar 1)) else common cfg fuel keys key 1 true
     | .backTab => if m == 0 then pure .completeBackward else common cfg fuel keys key 1 true
@@ -708,9 +726,9 @@ def nextCmd (fuel : Nat) (singleEscAbort : Bool) (ignoreExternalPrint : Bool) : 
   let key ← if ignoreExternalPrint then nextKey sea else waitForInput sea
   let inCommand ← (fun s => .ok (s.inp.inputMode == .command, s) : EM Bool)
   let cmd ←
-    if !cfg.vi then emacs cfg fuel key
-    else if !inCommand then viInsert cfg fuel key
-    else viCommand cfg fuel key
+    if !cfg.vi then emacs S U cfg fuel key
+    else if !inCommand then viInsert S U cfg fuel key
+    else viCommand S U cfg fuel key
   match cmd with
   | .replace _ _ => do let _ ← changesBegin; pure cmd
   | _ => pure cmd
@@ -733,8 +751,9 @@ def restore : EM Unit := do
 def editInsert (ch : Char) (n : Nat) : EM Unit := do
   match ← lb S U (LB.insert S U ch n) with
   | some _ => do
-    -- both the fast path and the full refresh recompute the hint
-    modify (fun s => { s with hint := computeHint cfg s })
+    -- both the fast path and the full refresh recompute the hint; the full refresh lays the line
+    -- out after the default prompt (the fast path is only taken when that is already the case)
+    modify (fun s => { s with hint := computeHint cfg s, layoutPromptCol := promptColOf S U cfg cfg.prompt })
     let _ ← highlightCharStep cfg   -- evaluated by the fast-path guard or by refresh_line
     pure ()
   | none => pure ()
@@ -753,14 +772,14 @@ def editReplaceChar (ch : Char) (n : Nat) : EM Unit := do
           pure true
         | none => pure false)
   let _ ← changesEnd
-  if succeed then refreshLine cfg
+  if succeed then refreshLine S U cfg
 
 def editOverwriteChar (ch : Char) : EM Unit := do
   let l ← getLine
   match ← liftP (LB.nextPos S l 1) with
   | some e => do
     lb S U (LB.replace S U l.pos e [ch])
-    refreshLine cfg
+    refreshLine S U cfg
   | none => pure ()
 
 def editYank (text : Text) (anchor : Anchor) (n : Nat) : EM Unit := do
@@ -768,35 +787,35 @@ def editYank (text : Text) (anchor : Anchor) (n : Nat) : EM Unit := do
   match ← lb S U (LB.yank S U text n) with
   | some _ => do
     if cfg.vi then do let _ ← lbQuiet (LB.moveBackward S U 1); pure ()
-    refreshLine cfg
+    refreshLine S U cfg
   | none => pure ()
 
 def editYankPop (yankSize : Nat) (text : Text) : EM Unit := do
   let _ ← changesBegin
   match ← lb S U (LB.yankPop S U yankSize text) with
-  | some _ => refreshLine cfg
+  | some _ => refreshLine S U cfg
   | none => pure ()
   let _ ← changesEnd
   pure ()
 
 def editMove (op : LM Bool) : EM Unit := do
-  if ← lbQuiet op then moveCursor cfg
+  if ← lbQuiet op then moveCursor S U cfg
 
 def editKill (mvt : Movement) : EM Unit := do
-  if ← lbKill S U (LB.kill S U mvt) then refreshLine cfg
+  if ← lbKill S U (LB.kill S U mvt) then refreshLine S U cfg
 
 def editInsertText (text : Text) : EM Unit := do
   if text.isEmpty then pure ()
   else do
     let l ← getLine
     let _ ← lb S U (LB.insertStr S U l.pos text)
-    refreshLine cfg
+    refreshLine S U cfg
 
 def grouped (op : LM Bool) : EM Unit := do
   let _ ← changesBegin
   let ok ← lb S U op
   let _ ← changesEnd
-  if ok then refreshLine cfg
+  if ok then refreshLine S U cfg
 
 def histGet (i : Nat) : Option Text := cfg.hist[i]?
 
@@ -827,7 +846,7 @@ def editHistoryNext (prev : Bool) : EM Unit := do
       showEntry S U buf (blen buf)
     | none => return ()
   else restore S U
-  refreshLine cfg
+  refreshLine S U cfg
 
 /-- `edit_history` (first / last) -/
 def editHistory (first : Bool) : EM Unit := do
@@ -846,7 +865,7 @@ def editHistory (first : Bool) : EM Unit := do
   else do
     setHistIdx len
     restore S U
-  refreshLine cfg
+  refreshLine S U cfg
 
 def memHist : MemHist := { entries := cfg.hist, maxLen := max cfg.hist.length 100, ignoreSpace := false, ignoreDups := false }
 
@@ -864,7 +883,7 @@ def editHistorySearch (dir : Dir) : EM Unit := do
   | some (idx, entry, pos) => do
     setHistIdx idx
     showEntry S U entry pos
-    refreshLine cfg
+    refreshLine S U cfg
   | none => pure ()
 
 /-- `complete_hint_line` -/
@@ -875,7 +894,7 @@ def completeHintLine : EM Unit := do
   | some text => do
     let _ ← lbQuiet (LB.moveEnd S U)
     let _ ← lb S U (LB.yank S U text 1)
-    refreshLine cfg
+    refreshLine S U cfg
 
 /-- `State::validate` -/
 def validate : EM Verdict := do
@@ -890,11 +909,13 @@ def validate : EM Verdict := do
     let hh ← hasHint
     match v with
     | .incomplete => pure ()
-    | .valid msg => if corrected || hh || msg then refreshLineWithMsg cfg
-    | .invalid msg => if corrected || hh || msg then refreshLineWithMsg cfg
+    | .valid msg => if corrected || hh || msg then refreshLineWithMsg S U cfg
+    | .invalid msg => if corrected || hh || msg then refreshLineWithMsg S U cfg
     | _ => pure ()
     pure v
   else pure (.valid false)
+
+def getPromptCol : EM Nat := fun s => .ok (s.layoutPromptCol, s)
 
 inductive Status | proceed | submit
 deriving DecidableEq
@@ -925,7 +946,7 @@ def acceptDecision (aim valid hasMsg atEnd : Bool) : AcceptAct :=
 
 /-- `Cmd::AcceptOrInsertLine` in `execute` -/
 def execAccept (aim : Bool) : EM Status := do
-  let v ← validate cfg
+  let v ← validate S U cfg
   let valid := match v with | .valid _ => true | _ => false
   let hasMsg := match v with | .valid m => m | .invalid m => m | _ => false
   let l ← getLine
@@ -940,21 +961,21 @@ def execute (cmd : Cmd) : EM Status := do
   match cmd with
   | .endOfFile | .acceptLine | .acceptOrInsertLine _ | .newline => do
     let s ← get
-    if s.hint.isSome || !s.defaultPrompt || s.highlightChar then refreshLineWithMsg cfg
+    if s.hint.isSome || !s.defaultPrompt || s.highlightChar then refreshLineWithMsg S U cfg
   | _ => pure ()
   match cmd with
   | .completeHint => do completeHintLine S U cfg; pure .proceed
   | .selfInsert n c => do editInsert S U cfg c n; pure .proceed
   | .insert n text => do editYank S U cfg text .before n; pure .proceed
-  | .move .beginningOfLine => do editMove cfg (LB.moveHome S U); pure .proceed
+  | .move .beginningOfLine => do editMove S U cfg (LB.moveHome S U); pure .proceed
   | .move .viFirstPrint => do
-    editMove cfg (LB.moveHome S U)
+    editMove S U cfg (LB.moveHome S U)
     let l ← getLine
     match l.buf.head? with
-    | some c => if U.ws c then editMove cfg (LB.moveToNextWord S U .start .big 1)
+    | some c => if U.ws c then editMove S U cfg (LB.moveToNextWord S U .start .big 1)
     | none => pure ()
     pure .proceed
-  | .move (.backwardChar n) => do editMove cfg (LB.moveBackward S U n); pure .proceed
+  | .move (.backwardChar n) => do editMove S U cfg (LB.moveBackward S U n); pure .proceed
   | .replaceChar n c => do editReplaceChar S U cfg c n; pure .proceed
   | .replace mvt text => do
     editKill S U cfg mvt
@@ -968,17 +989,19 @@ def execute (cmd : Cmd) : EM Status := do
     if empty then exit .eof
     else if cfg.vi then pure .submit
     else pure .proceed
-  | .move .endOfLine => do editMove cfg (LB.moveEnd S U); pure .proceed
-  | .move (.forwardChar n) => do editMove cfg (LB.moveForward S U n); pure .proceed
-  | .clearScreen => do refreshLine cfg; pure .proceed
+  | .move .endOfLine => do editMove S U cfg (LB.moveEnd S U); pure .proceed
+  | .move (.forwardChar n) => do editMove S U cfg (LB.moveForward S U n); pure .proceed
+  | .clearScreen => do refreshLine S U cfg; pure .proceed
   | .nextHistory => do editHistoryNext S U cfg false; pure .proceed
   | .previousHistory => do editHistoryNext S U cfg true; pure .proceed
   | .lineUpOrPreviousHistory n => do
-    if ← lbQuiet (LB.moveToLineUp S U n cfg.promptCol) then moveCursor cfg
+    let pc ← getPromptCol
+    if ← lbQuiet (LB.moveToLineUp S U n pc) then moveCursor S U cfg
     else editHistoryNext S U cfg true
     pure .proceed
   | .lineDownOrNextHistory n => do
-    if ← lbQuiet (LB.moveToLineDown S U n cfg.promptCol) then moveCursor cfg
+    let pc ← getPromptCol
+    if ← lbQuiet (LB.moveToLineDown S U n pc) then moveCursor S U cfg
     else editHistoryNext S U cfg false
     pure .proceed
   | .historySearchBackward => do editHistorySearch S U cfg .reverse; pure .proceed
@@ -996,21 +1019,25 @@ def execute (cmd : Cmd) : EM Status := do
     | none => pure ()
     pure .proceed
   | .newline => do editInsert S U cfg '\n' 1; pure .proceed
-  | .repaint => do refreshLine cfg; pure .proceed
+  | .repaint => do refreshLine S U cfg; pure .proceed
   | .acceptLine => do
-    let _ ← validate cfg
+    let _ ← validate S U cfg
     pure .submit
   | .acceptOrInsertLine aim => execAccept S U cfg aim
   | .beginningOfHistory => do editHistory S U cfg true; pure .proceed
   | .endOfHistory => do editHistory S U cfg false; pure .proceed
-  | .move (.backwardWord n w) => do editMove cfg (LB.moveToPrevWord S U w n); pure .proceed
+  | .move (.backwardWord n w) => do editMove S U cfg (LB.moveToPrevWord S U w n); pure .proceed
   | .capitalizeWord => do grouped S U cfg (LB.editWord S U .capitalize); pure .proceed
   | .kill mvt => do editKill S U cfg mvt; pure .proceed
-  | .move (.forwardWord n a w) => do editMove cfg (LB.moveToNextWord S U a w n); pure .proceed
-  | .move (.lineUp n) => do editMove cfg (LB.moveToLineUp S U n cfg.promptCol); pure .proceed
-  | .move (.lineDown n) => do editMove cfg (LB.moveToLineDown S U n cfg.promptCol); pure .proceed
-  | .move .beginningOfBuffer => do editMove cfg (LB.moveBufferStart S U); pure .proceed
-  | .move .endOfBuffer => do editMove cfg (LB.moveBufferEnd S U); pure .proceed
+  | .move (.forwardWord n a w) => do editMove S U cfg (LB.moveToNextWord S U a w n); pure .proceed
+  | .move (.lineUp n) => do
+    let pc ← getPromptCol
+    editMove S U cfg (LB.moveToLineUp S U n pc); pure .proceed
+  | .move (.lineDown n) => do
+    let pc ← getPromptCol
+    editMove S U cfg (LB.moveToLineDown S U n pc); pure .proceed
+  | .move .beginningOfBuffer => do editMove S U cfg (LB.moveBufferStart S U); pure .proceed
+  | .move .endOfBuffer => do editMove S U cfg (LB.moveBufferEnd S U); pure .proceed
   | .downcaseWord => do grouped S U cfg (LB.editWord S U .lowercase); pure .proceed
   | .transposeWords n => do grouped S U cfg (LB.transposeWords S U n); pure .proceed
   | .upcaseWord => do grouped S U cfg (LB.editWord S U .uppercase); pure .proceed
@@ -1019,20 +1046,20 @@ def execute (cmd : Cmd) : EM Status := do
     | some (size, text) => editYankPop S U cfg size text
     | none => pure ()
     pure .proceed
-  | .move (.viCharSearch n cs) => do editMove cfg (LB.moveTo S U cs n); pure .proceed
+  | .move (.viCharSearch n cs) => do editMove S U cfg (LB.moveTo S U cs n); pure .proceed
   | .undo n => do
     let s ← get
     match s.changes.undo S U s.line n with
     | .ok (c, l, undone) => do
       set { s with changes := c, line := l }
-      if undone then refreshLine cfg
+      if undone then refreshLine S U cfg
       pure .proceed
     | .error _ => exit .panic
   | .dedent mvt => do
-    if ← lb S U (LB.indent S U mvt cfg.indentSize true) then refreshLine cfg
+    if ← lb S U (LB.indent S U mvt cfg.indentSize true) then refreshLine S U cfg
     pure .proceed
   | .indent mvt => do
-    if ← lb S U (LB.indent S U mvt cfg.indentSize false) then refreshLine cfg
+    if ← lb S U (LB.indent S U mvt cfg.indentSize false) then refreshLine S U cfg
     pure .proceed
   | .interrupt => exit .interrupted
   | _ => pure .proceed
@@ -1040,6 +1067,10 @@ def execute (cmd : Cmd) : EM Status := do
 /-! ### `src/lib.rs` loops -/
 
 def truncateChanges (mark : Nat) : EM Unit := modify (fun s => { s with changes := s.changes.truncate mark })
+
+/-- candidate index after Tab / Shift-Tab in the circular loop (index `n` = the original text) -/
+def compNext (n i : Nat) : Nat := (i + 1) % (n + 1)
+def compPrev (n i : Nat) : Nat := if i == 0 then n else (i - 1) % (n + 1)
 
 /-- circular completion loop -/
 def completeCircular (start : Nat) (cands : List Text) (mark : Nat) (backup : Text) (backupPos : Nat) :
@@ -1053,17 +1084,15 @@ def completeCircular (start : Nat) (cands : List Text) (mark : Nat) (backup : Te
         lb S U (LB.replace S U start l.pos c)
       | none => pure ()
     else lb S U (LB.update S U backup backupPos)
-    refreshLine cfg
-    let cmd ← nextCmd cfg fuel true true
+    refreshLine S U cfg
+    let cmd ← nextCmd S U cfg fuel true true
     match cmd with
-    | .complete => completeCircular start cands mark backup backupPos fuel ((i + 1) % (cands.length + 1))
-    | .completeBackward =>
-      completeCircular start cands mark backup backupPos fuel
-        (if i == 0 then cands.length else (i - 1) % (cands.length + 1))
+    | .complete => completeCircular start cands mark backup backupPos fuel (compNext cands.length i)
+    | .completeBackward => completeCircular start cands mark backup backupPos fuel (compPrev cands.length i)
     | .abort => do
       if i < cands.length then do
         lb S U (LB.update S U backup backupPos)
-        refreshLine cfg
+        refreshLine S U cfg
       truncateChanges mark
       pure none
     | _ => do
@@ -1097,27 +1126,28 @@ def completeLine (fuel : Nat) : EM (Option Cmd) := do
       if start > l.pos then exit .panic
       if blen lcp > l.pos - start || cands.length == 1 then do
         lb S U (LB.replace S U start l.pos lcp)
-        refreshLine cfg
+        refreshLine S U cfg
     | none => pure ()
     if cands.length ≤ 1 then pure none
     else do
-      let cmd ← nextCmd cfg fuel true true
+      let cmd ← nextCmd S U cfg fuel true true
       if cmd != .complete then pure (some cmd)
       else do
         -- second Tab: list the candidates (paging dialogue not modelled: ≤ 100 candidates, fits the screen)
         let savePos ← (fun s => .ok (s.line.pos, s) : EM Nat)
-        editMove cfg (LB.moveEnd S U)
+        editMove S U cfg (LB.moveEnd S U)
         lbQuiet (LB.setPosChecked S U savePos)
-        refreshLine cfg
+        refreshLine S U cfg
         pure none
 
 /-- `reverse_incremental_search` -/
 def searchLoop (mark : Nat) (backup : Text) (backupPos : Nat) :
     Nat → Text → Nat → Dir → Bool → EM (Option Cmd)
   | 0, _, _, _, _ => exit .fuel
-  | fuel + 1, searchBuf, histIdx, dir, _success => do
-    refreshPromptAndLine cfg
-    let cmd ← nextCmd cfg fuel true true
+  | fuel + 1, searchBuf, histIdx, dir, success => do
+    refreshPromptAndLine S U cfg
+      ((if success then "(reverse-i-search)`" else "(failed reverse-i-search)`").toList ++ searchBuf ++ "': ".toList)
+    let cmd ← nextCmd S U cfg fuel true true
     let doSearch (searchBuf : Text) (histIdx : Nat) (dir : Dir) : EM (Option Cmd) := do
       match (memHist cfg).search searchBuf histIdx dir with
       | some (idx, entry, pos) => do
@@ -1126,7 +1156,7 @@ def searchLoop (mark : Nat) (backup : Text) (backupPos : Nat) :
       | none => searchLoop mark backup backupPos fuel searchBuf histIdx dir false
     match cmd with
     | .selfInsert _ c => doSearch (searchBuf ++ [c]) histIdx dir
-    | .kill (.backwardChar _) => searchLoop mark backup backupPos fuel searchBuf.dropLast histIdx dir _success
+    | .kill (.backwardChar _) => searchLoop mark backup backupPos fuel searchBuf.dropLast histIdx dir success
     | .reverseSearchHistory =>
       if histIdx > 0 then doSearch searchBuf (histIdx - 1) .reverse
       else searchLoop mark backup backupPos fuel searchBuf histIdx .reverse false
@@ -1135,11 +1165,11 @@ def searchLoop (mark : Nat) (backup : Text) (backupPos : Nat) :
       else searchLoop mark backup backupPos fuel searchBuf histIdx .forward false
     | .abort => do
       lb S U (LB.update S U backup backupPos)
-      refreshLine cfg
+      refreshLine S U cfg
       truncateChanges mark
       pure none
     | .move _ => do
-      refreshLine cfg
+      refreshLine S U cfg
       let _ ← changesEnd
       pure (some cmd)
     | _ => do
@@ -1153,24 +1183,32 @@ def reverseIncrementalSearch (fuel : Nat) : EM (Option Cmd) := do
     let l ← getLine
     searchLoop S U cfg mark l.buf l.pos fuel [] (cfg.hist.length - 1) .reverse true
 
+/-- the dispatch loop for commands that need extra input (`Complete`, `ReverseSearchHistory`) -/
+def preCmds : Nat → Cmd → EM (Option Cmd)
+  | 0, _ => exit .fuel
+  | fuel + 1, cmd =>
+    if cmd == .complete && cfg.hasHelper then do
+      match ← completeLine S U cfg fuel with
+      | some next => preCmds fuel next
+      | none => pure none
+    else if cmd == .reverseSearchHistory then do
+      match ← reverseIncrementalSearch S U cfg fuel with
+      | some next => preCmds fuel next
+      | none => pure none
+    else pure (some cmd)
+
 /-- main loop of `readline_edit` -/
 def mainLoop : Nat → EM Unit
   | 0 => exit .fuel
   | fuel + 1 => do
-    let cmd0 ← nextCmd cfg fuel false false
+    let cmd0 ← nextCmd S U cfg fuel false false
     if cmd0.shouldResetKillRing then modify (fun s => { s with ring := s.ring.reset })
-    -- commands that need extra input
-    let cmd1 ←
-      if cmd0 == .complete && cfg.hasHelper then completeLine S U cfg fuel else pure (some cmd0)
-    match cmd1 with
-    | none => mainLoop fuel
-    | some cmd1 =>
-    let cmd2 ← if cmd1 == .reverseSearchHistory then reverseIncrementalSearch S U cfg fuel else pure (some cmd1)
-    match cmd2 with
+    -- commands that need extra input (each may hand back the command that ended it)
+    match ← preCmds S U cfg fuel cmd0 with
     | none => mainLoop fuel
     | some cmd =>
     if cmd == .suspend then do
-      refreshLine cfg
+      refreshLine S U cfg
       mainLoop fuel
     else if cmd == .quotedInsert then do
       let c ← nextChar
@@ -1194,10 +1232,10 @@ def readline (ring : KillRing) (left right : Text) (input : Input) : Outcome × 
   let prog : EM Unit := do
     if !(left.isEmpty && right.isEmpty) then
       lb S U (LB.update S U (left ++ right) (blen left))
-    refreshLine cfg
+    refreshLine S U cfg
     mainLoop S U cfg (input.size + 2)
     -- `edit_move_buffer_end(ForcedRefresh)`
-    editMove cfg (LB.moveBufferEnd S U)
+    editMove S U cfg (LB.moveBufferEnd S U)
   match prog s0 with
   | .ok (_, s) => (.line s.line.buf, s)
   | .error (o, s) => (o, s)
